@@ -6,6 +6,8 @@
 #include "calls.hh"
 #include "oracle_fan.hh"
 #include <OpenVolumeMesh/Attribs/StatusAttrib.hh>
+#include <OpenVolumeMesh/FileManager/FileManager.hh>
+#include <OpenVolumeMesh/IO/ovmb_read.hh>
 
 namespace vf {
 
@@ -30,6 +32,7 @@ struct EngCfg {
     int block_bias = 2;       // hex kernel: out of 10 build steps add a block of hexes
     bool allow_status_gc = false; // C04: StatusAttrib::garbage_collection with handle tracking / manifoldness
     bool chk_fan = false;     // C09 oracles after every step
+    std::string load_base;    // start from a file of the repository's test data instead of an empty mesh
     bool persistent_tags = false; // C13: identity tags survive mesh copies
     std::string prop_prefix = "p";
 };
@@ -1018,7 +1021,20 @@ struct Engine {
         int k = (int)rng.below(10);
         if (k < 2) op_create_prop(); else if (k < 3) op_drop_prop(); else op_write_props();
     }
+    // start from a loaded mesh (C01: "starting from an empty, generated or loaded mesh")
+    void load_file(const std::string &path) {
+        bool ok;
+        if (path.size() > 5 && path.substr(path.size() - 5) == ".ovmb") { ovm::IO::ReadOptions o; o.topology_check = false; ok = ovm::IO::ovmb_read(path.c_str(), mesh, o) == ovm::IO::ReadResult::Ok; }
+        else { ovm::IO::FileManager fm; fm.setVerbosityLevel(0); ok = fm.readFile(path, mesh, false, true); }
+        ctx.op("load(" + path.substr(path.find_last_of('/') + 1) + ")->" + std::to_string(ok));
+        ctx.cls("base:loaded-file");
+        model.clear(); for (auto &p : props) p->shadow.clear();
+        rescan();
+        adopt_new(0, 0, 0, 0);
+        rescan();
+    }
     void run() {
+        if (!cfg.load_base.empty()) load_file(cfg.load_base);
         if (cfg.allow_props) { int n = 3 + (int)rng.below(5); for (int i = 0; i < n; ++i) op_create_prop(); }
         for (int i = 0; i < cfg.build_steps; ++i) { build_step(); if (cfg.allow_props && rng.chance(1, 2)) op_write_props(); check_all(); }
         for (int i = 0; i < cfg.steps; ++i) { mutate_step(); check_all(); }
